@@ -544,7 +544,7 @@ static void COTmrRemove(CO_TMR *tmr, CO_TMR_TIME *tx)
 
             /* loop through used timers in list until timer is removed */
             tn = tmr->Use;
-            do {
+            while ((tn != 0) && (tx != 0)) {
                 /* remove next timer in list */
                 if (tn->Next == tx) {
                     tn->Next = tx->Next;
@@ -559,7 +559,27 @@ static void COTmrRemove(CO_TMR *tmr, CO_TMR_TIME *tx)
                     tx         = 0;
                 }
                 tn = tn->Next;
-            } while((tn != 0) && (tx != 0));
+            }
+
+            /* timer is not in used list: remove from elapsed timer list */
+            if (tx != 0) {
+                if (tmr->Elapsed == tx) {
+                    tmr->Elapsed = tx->Next;
+                    tx->Next     = tmr->Free;
+                    tmr->Free    = tx;
+                } else {
+                    tn = tmr->Elapsed;
+                    while ((tn != 0) && (tx != 0)) {
+                        if (tn->Next == tx) {
+                            tn->Next  = tx->Next;
+                            tx->Next  = tmr->Free;
+                            tmr->Free = tx;
+                            tx        = 0;
+                        }
+                        tn = tn->Next;
+                    }
+                }
+            }
         }
     }
 }
